@@ -40,7 +40,8 @@ def _setup(draws, width, stride, start, T):
     Z = sp.ContinuousFactor('Z', distribution=sp.CustomDistribution(
         lambda w: tuple(None if _isnan(w[-k]) else w[-k] for k in range(width)), [win]))
     C = sp.ContinuousFactor('C', distribution=sp.CustomDistribution(lambda: 1, cumulative=True))
-    block = sp.CrossBlock([A, X, Y, Z, C], [A], [_CC([X], lambda x: x >= 0)])
+    # two constraints over the same factor list: both must be enforced
+    block = sp.CrossBlock([A, X, Y, Z, C], [A], [_CC([X], lambda x: x >= 0), _CC([X], lambda x: x <= 50)])
     trial = {'A': list(levels)}
     block.trials_per_sample()
     out = block.sample_continuous(0, trial)
@@ -55,12 +56,12 @@ def _expected_window(xs, i, width, stride, start):
 def _check(ret, draws, width, stride, start, T):
     out, levels, left = ret
     first, second = list(draws[:T]), list(draws[T:2 * T])
-    accepted = first if all(x >= 0 for x in first) else second
+    accepted = first if all(0 <= x <= 50 for x in first) else second
     if set(out.keys()) != {'X', 'Y', 'Z', 'C'}:
         return False
     if any(len(out[k]) != T for k in out):
         return False
-    if list(out['X']) != accepted or any(x < 0 for x in out['X']):
+    if list(out['X']) != accepted or any(x < 0 or x > 50 for x in out['X']):
         return False
     if left != (T if accepted is first else 0):
         return False
@@ -85,7 +86,7 @@ def cases(tier):
     for width, stride, T in shapes:
         sig = 'draws: List[int], start: int'
         pre = (f'return len(draws) == {2 * T} and 0 <= start <= 3 and '
-               f'(all(x >= 0 for x in draws[:{T}]) or all(x >= 0 for x in draws[{T}:]))')
+               f'(all(0 <= x <= 50 for x in draws[:{T}]) or all(0 <= x <= 50 for x in draws[{T}:]))')
         impl = f'start = _conc(start, 0, 3)\nreturn _setup(draws, {width}, {stride}, start, {T})'
         post = f'return _check(_ret, draws, {width}, {stride}, start, {T})'
         out.append(Case(f'window_w{width}_s{stride}_T{T}', sig, I(impl), I(pre), I(post),
@@ -93,7 +94,7 @@ def cases(tier):
     # default start (None)
     sig = 'draws: List[int]'
     T = 3
-    pre = f'return len(draws) == {2 * T} and (all(x >= 0 for x in draws[:{T}]) or all(x >= 0 for x in draws[{T}:]))'
+    pre = f'return len(draws) == {2 * T} and (all(0 <= x <= 50 for x in draws[:{T}]) or all(0 <= x <= 50 for x in draws[{T}:]))'
     out.append(Case('window_default_start', sig, I(f'return _setup(draws, 2, 1, None, {T})'), I(pre),
                     I(f'return _check(_ret, draws, 2, 1, None, {T})'), info={'width': 2, 'stride': 1, 'start': None}))
     return out
